@@ -46,7 +46,7 @@ func (f *SymbolValue) Call(s *slip.Scope, args slip.List, depth int) slip.Object
 		return sym
 	}
 	result, has := slip.CurrentPackage.Get(string(sym))
-	if !has {
+	if !has || result == slip.Unbound {
 		slip.UnboundVariablePanic(s, depth, sym, "The variable %s is unbound.", sym)
 	}
 	return result
